@@ -608,11 +608,13 @@ func TestVerifC18(t *testing.T) {
 		{"base", 6, 3, 4, 0},
 		{"wide+cache", 15, 3, 5, 2},
 	}
+	depths := []int{mc.Pick(c, 5, 7), mc.Pick(c, 5, 6)}
 	if c.Thorough() {
-		cfgs = append(cfgs, c18Cfg{"wide", 15, 3, 5, 0}, c18Cfg{"base+cache", 6, 3, 4, 2}, c18Cfg{"odd", 5, 2, 7, 0}, c18Cfg{"equal+cache", 4, 4, 4, 1})
+		// (the cache configurations run ~5x slower: every cache tick is a hand-off to the two real ticker goroutines)
+		cfgs = append(cfgs, c18Cfg{"wide", 15, 3, 5, 0}, c18Cfg{"odd", 5, 2, 7, 0}, c18Cfg{"base+cache", 6, 3, 4, 2}, c18Cfg{"equal+cache", 4, 4, 4, 1})
+		depths = append(depths, 6, 6, 6, 6)
 	}
 	alpha := c18Alphabet(c.Thorough())
-	maxDepth := mc.Pick(c, 5, 7)
 
 	st := &c18Stat{mustPass: map[string]int64{}, mustDrop: map[string]int64{}, variantLive: map[string]int64{}}
 	label := func(e c18Ev) string {
@@ -623,8 +625,8 @@ func TestVerifC18(t *testing.T) {
 	}
 	perCfg := map[string]any{}
 	complete := true
-	for _, cfg := range cfgs {
-		cfg := cfg
+	for ci, cfg := range cfgs {
+		cfg, maxDepth := cfg, depths[ci]
 		if cfg.Cache >= cfg.tick() {
 			c.Broken("config %v: cache period must be below the smallest timeout", cfg)
 		}
